@@ -409,4 +409,182 @@ theorem pyFormat_field (s : List Char) (a : String) (args : List String) (o : Li
   have h2 : ('}' : Char) ≠ '{' := by decide
   simp [pyFormat, h2, hs]
 
+/-! ## `str.format` never runs out of positional arguments on what the scanner produced -/
+
+/-- occurrences of `{` immediately followed by `}`: the places where `str.format` can take an argument -/
+def cntOpen : List Char → Nat
+  | [] => 0
+  | [_] => 0
+  | c :: c' :: r => (if c = '{' ∧ c' = '}' then 1 else 0) + cntOpen (c' :: r)
+
+theorem cntOpen_cons_le (c : Char) : ∀ s : List Char, cntOpen s ≤ cntOpen (c :: s)
+  | [] => by simp [cntOpen]
+  | x :: r => by rw [cntOpen]; omega
+
+theorem cntOpen_cons_ne (c : Char) (h : c ≠ '{') : ∀ s : List Char, cntOpen (c :: s) = cntOpen s
+  | [] => by simp [cntOpen]
+  | x :: r => by rw [cntOpen]; simp [h]
+
+theorem pyFormat_errors : ∀ (s : List Char) (args : List String) (e : Exc), pyFormat s args = .error e →
+    e = .valueError ∨ e = .unmodelled ∨ (e = .indexError ∧ args.length < cntOpen s)
+  | [], _, e, h => by simp [pyFormat] at h
+  | [c], _, e, h => by
+    simp only [pyFormat] at h
+    split at h <;> simp at h
+    exact Or.inl h.symm
+  | c :: c' :: r, args, e, h => by
+    unfold pyFormat at h
+    by_cases h1 : c = '{'
+    · simp only [h1, if_true] at h
+      by_cases h2 : c' = '{'
+      · simp only [h2, if_true] at h
+        cases hr : pyFormat r args with
+        | ok o => rw [hr] at h; simp at h
+        | error e' =>
+          rw [hr] at h; simp at h; subst h
+          rcases pyFormat_errors r args e' hr with h | h | ⟨h, hl⟩
+          · exact Or.inl h
+          · exact Or.inr (Or.inl h)
+          · refine Or.inr (Or.inr ⟨h, ?_⟩)
+            have a1 := cntOpen_cons_le '{' r
+            have a2 := cntOpen_cons_le c ('{' :: r)
+            rw [h2]; omega
+      · simp only [h2, if_false] at h
+        by_cases h3 : c' = '}'
+        · simp only [h3, if_true] at h
+          cases args with
+          | nil =>
+            simp at h; subst h
+            refine Or.inr (Or.inr ⟨rfl, ?_⟩)
+            rw [h1, h3, cntOpen]; simp; omega
+          | cons a as =>
+            simp only at h
+            cases hr : pyFormat r as with
+            | ok o => rw [hr] at h; simp at h
+            | error e' =>
+              rw [hr] at h; simp at h; subst h
+              rcases pyFormat_errors r as e' hr with h | h | ⟨h, hl⟩
+              · exact Or.inl h
+              · exact Or.inr (Or.inl h)
+              · refine Or.inr (Or.inr ⟨h, ?_⟩)
+                have a1 := cntOpen_cons_le '}' r
+                rw [h1, h3, cntOpen]; simp; omega
+        · simp only [h3, if_false] at h
+          simp at h; exact Or.inr (Or.inl h.symm)
+    · simp only [h1, if_false] at h
+      by_cases h4 : c = '}'
+      · simp only [h4, if_true] at h
+        by_cases h5 : c' = '}'
+        · simp only [h5, if_true] at h
+          cases hr : pyFormat r args with
+          | ok o => rw [hr] at h; simp at h
+          | error e' =>
+            rw [hr] at h; simp at h; subst h
+            rcases pyFormat_errors r args e' hr with h | h | ⟨h, hl⟩
+            · exact Or.inl h
+            · exact Or.inr (Or.inl h)
+            · refine Or.inr (Or.inr ⟨h, ?_⟩)
+              have a1 := cntOpen_cons_le c' r
+              have a2 := cntOpen_cons_le c (c' :: r)
+              omega
+        · simp only [h5, if_false] at h
+          simp at h; exact Or.inl h.symm
+      · simp only [h4, if_false] at h
+        cases hr : pyFormat (c' :: r) args with
+        | ok o => rw [hr] at h; simp at h
+        | error e' =>
+          rw [hr] at h; simp at h; subst h
+          rcases pyFormat_errors (c' :: r) args e' hr with h | h | ⟨h, hl⟩
+          · exact Or.inl h
+          · exact Or.inr (Or.inl h)
+          · refine Or.inr (Or.inr ⟨h, ?_⟩)
+            have a2 := cntOpen_cons_le c (c' :: r)
+            omega
+termination_by s => s.length
+
+/-- what the scanner returns has at least as many field names as places where `str.format` takes one -/
+theorem scan_cnt : ∀ (s : List Char) (m : Mode) (o : List Char) (a : List String), scan m s = .ok (o, a) →
+    (m = .text → cntOpen o ≤ a.length) ∧ (m ≠ .text → cntOpen ('{' :: o) ≤ a.length)
+  | [], .text, o, a, h => by simp [scan] at h; obtain ⟨rfl, rfl⟩ := h; simp [cntOpen]
+  | [], .braces, o, a, h => by simp [scan] at h
+  | [], .field _, o, a, h => by simp [scan] at h
+  | c :: r, .text, o, a, h => by
+    simp only [scan] at h
+    refine ⟨fun _ => ?_, fun hne => absurd rfl hne⟩
+    by_cases hc : c = '{'
+    · simp only [hc, if_true] at h
+      cases hr : scan .braces r with
+      | error e => rw [hr] at h; simp at h
+      | ok x =>
+        obtain ⟨o', a'⟩ := x
+        rw [hr] at h; simp at h; obtain ⟨rfl, rfl⟩ := h
+        exact (scan_cnt r .braces o' a' hr).2 (by simp)
+    · simp only [hc, if_false] at h
+      cases hr : scan .text r with
+      | error e => rw [hr] at h; simp at h
+      | ok x =>
+        obtain ⟨o', a'⟩ := x
+        rw [hr] at h; simp at h; obtain ⟨rfl, rfl⟩ := h
+        rw [cntOpen_cons_ne c hc]
+        exact (scan_cnt r .text o' a' hr).1 rfl
+  | c :: r, .braces, o, a, h => by
+    simp only [scan] at h
+    refine ⟨fun e => by simp at e, fun _ => ?_⟩
+    by_cases hc : c = '{'
+    · simp only [hc, if_true] at h
+      cases hr : scan .braces r with
+      | error e => rw [hr] at h; simp at h
+      | ok x =>
+        obtain ⟨o', a'⟩ := x
+        rw [hr] at h; simp at h; obtain ⟨rfl, rfl⟩ := h
+        have := (scan_cnt r .braces o' a' hr).2 (by simp)
+        rw [cntOpen]; simp; exact this
+    · simp only [hc, if_false] at h
+      by_cases ht : isTerm c = true
+      · simp only [ht, if_true] at h
+        cases hr : scan .text r with
+        | error e => rw [hr] at h; simp at h
+        | ok x =>
+          obtain ⟨o', a'⟩ := x
+          rw [hr] at h; simp at h; obtain ⟨rfl, rfl⟩ := h
+          have := (scan_cnt r .text o' a' hr).1 rfl
+          rw [cntOpen, cntOpen_cons_ne c hc]
+          simp only [List.length_cons]
+          split <;> omega
+      · simp only [ht] at h
+        exact (scan_cnt r (.field [c]) o a h).2 (by simp)
+  | c :: r, .field arg, o, a, h => by
+    simp only [scan] at h
+    refine ⟨fun e => by simp at e, fun _ => ?_⟩
+    by_cases ht : isTerm c = true
+    · simp only [ht, if_true] at h
+      cases hr : scan .text r with
+      | error e => rw [hr] at h; simp at h
+      | ok x =>
+        obtain ⟨o', a'⟩ := x
+        rw [hr] at h; simp at h; obtain ⟨rfl, rfl⟩ := h
+        have := (scan_cnt r .text o' a' hr).1 rfl
+        have hc : c ≠ '{' := by intro e; rw [e] at ht; exact absurd ht (by decide)
+        rw [cntOpen, cntOpen_cons_ne c hc]
+        simp only [List.length_cons]
+        split <;> omega
+    · simp only [ht] at h
+      exact (scan_cnt r (.field (c :: arg)) o a h).2 (by simp)
+
+theorem formatInit_cnt (s : String) (f : Fmt) (h : formatInit (some s) = .ok f) : cntOpen f.fstr ≤ f.args.length := by
+  unfold formatInit at h
+  simp only at h
+  split at h
+  · simp at h
+  · split at h
+    · simp at h
+    · split at h
+      · simp at h
+      · cases hr : scan .text (dedouble '}' (dedouble '{' s.toList)) with
+        | error e => rw [hr] at h; simp at h
+        | ok x =>
+          obtain ⟨o, a⟩ := x
+          rw [hr] at h; simp at h; subst h
+          exact (scan_cnt _ .text o a hr).1 rfl
+
 end Lena.C08
